@@ -58,9 +58,4 @@ def ok : Bool := match finalPoly with
   | none => false
   | some p => p.allDiv P
 
-#eval finalPoly.map (fun p => p.length)
-#eval finalPoly.map (fun p => (p.filter (fun t => t.1 != 0)).map (fun t => (t.1 / P, t.1 % P, t.2)))
-#eval ok
-set_option maxRecDepth 100000 in
-theorem feMul_value_ok : ok = true := by decide +kernel
 end IR
